@@ -29,6 +29,10 @@
 //!             (no symbol files), processed under stable_basic and rendered
 //!                                         -> T req=<requesting_thread|-> <tid>:<info 0 Ok|1 MissingContext|2 DumpThreadSkipped|3 other>:
 //!                                            <instruction>/<trust>,...:<unloaded offsets of frame 0 joined by +>,... ; ...
+//!             (second pass) the answer continues ` | <items of print> | <items of print_brief> | <items of print_json>`: the blocks the
+//!             printers wrote as the items of coq/C03/RenderModel.v (T<i> thread header, N <no frames>, F<n>:<offset|-> frame line,
+//!             J<frames> f<idx>:<module_offset|-> JSON thread, C<threads_index> crashing_thread), compared with the model's printers.
+//!             share=1 (D and T): every thread-list entry cites the stack bytes and the context of the first one (share_patch).
 //!  B <good> <crash> 16 (v)*16   (round 5) amd64/Linux crash at address <crash> = <good> with one bit (12..47) flipped; the page of
 //!             <good> is the only mapped memory (memory-info list); the 16 general-purpose registers (rax rbx rcx rdx rsi rdi rbp rsp
 //!             r8..r15) hold the values, rip = 0x400000
@@ -729,10 +733,91 @@ fn run_nearby(t: &mut Toks) -> String {
     format!("B {} {}", count, idx.map(|i| i.to_string()).unwrap_or_else(|| "-".into()))
 }
 
+/// what print / print_brief wrote, as the items of coq/C03/RenderModel.v: T<i> thread header, N `<no frames>`, I<n> inline frame,
+/// F<n>:<offset|-> real frame with the offset printed after `module + ` (- = raw address)
+fn text_items(out: &str) -> String {
+    let mut toks: Vec<String> = vec![];
+    for line in out.lines() {
+        if let Some(rest) = line.strip_prefix("Thread ") {
+            toks.push(format!("T{}", rest.split(' ').next().unwrap_or("?")));
+        } else if line == "<no frames>" {
+            toks.push("N".into());
+        } else {
+            // `{frame_idx:2}  ` then the frame
+            let t = line.trim_start_matches(' ');
+            if line.len() - t.len() > 1 {
+                continue;
+            }
+            let digits: String = t.chars().take_while(|c| c.is_ascii_digit()).collect();
+            if digits.is_empty() || !t[digits.len()..].starts_with("  ") || (digits.len() == 1 && line.len() - t.len() != 1) {
+                continue;
+            }
+            let rest = &t[digits.len() + 2..];
+            if rest.starts_with("0x") {
+                toks.push(format!("F{}:-", digits));
+            } else if let Some(i) = rest.rfind(" + 0x") {
+                let off = u64::from_str_radix(&rest[i + 5..], 16).map(|v| v.to_string()).unwrap_or_else(|_| "?".into());
+                toks.push(format!("F{}:{}", digits, off));
+            } else if rest.contains('!') {
+                toks.push(format!("I{}", digits));
+            } else {
+                toks.push(format!("?{}", digits));
+            }
+        }
+    }
+    if toks.is_empty() {
+        "-".into()
+    } else {
+        toks.join(",")
+    }
+}
+
+/// print_json's threads / frames / crashing_thread as items: J<frames> per thread followed by f<idx>:<module_offset|-> per frame,
+/// C<threads_index> for the crashing_thread object
+fn json_items(out: &[u8]) -> String {
+    let v: serde_json::Value = serde_json::from_slice(out).expect("json");
+    let mut toks: Vec<String> = vec![];
+    let hexnum = |x: &serde_json::Value| match x.as_str() {
+        Some(s) => u64::from_str_radix(s.trim_start_matches("0x"), 16).map(|v| v.to_string()).unwrap_or_else(|_| "?".into()),
+        None => "-".into(),
+    };
+    for t in v["threads"].as_array().map(|a| a.as_slice()).unwrap_or(&[]) {
+        let frames = t["frames"].as_array().map(|a| a.as_slice()).unwrap_or(&[]);
+        toks.push(format!("J{}", frames.len()));
+        if t["frame_count"].as_u64() != Some(frames.len() as u64) {
+            toks.push("?frame_count".into());
+        }
+        for f in frames {
+            toks.push(format!("f{}:{}", f["frame"].as_u64().map(|x| x.to_string()).unwrap_or_else(|| "?".into()), hexnum(&f["module_offset"])));
+        }
+    }
+    if let Some(ct) = v.get("crashing_thread") {
+        toks.push(format!("C{}", ct["threads_index"].as_u64().map(|x| x.to_string()).unwrap_or_else(|| "?".into())));
+        if !ct["frames"][0]["registers"].is_object() {
+            toks.push("?registers".into());
+        }
+    }
+    if toks.is_empty() {
+        "-".into()
+    } else {
+        toks.join(",")
+    }
+}
+
 /// T case: see the header.
 fn run_threads(spec: &Spec) -> String {
     let state = state_of(spec);
     render(&state);
+    let (mut full, mut brief, mut json) = (Vec::new(), Vec::new(), Vec::new());
+    state.print(&mut full).expect("print");
+    state.print_brief(&mut brief).expect("print_brief");
+    state.print_json(&mut json, false).expect("print_json");
+    let rendered = format!(
+        "{} | {} | {}",
+        text_items(&String::from_utf8_lossy(&full)),
+        text_items(&String::from_utf8_lossy(&brief)),
+        json_items(&json)
+    );
     let mut parts: Vec<String> = vec![];
     for cs in &state.threads {
         let info = match cs.info {
@@ -769,9 +854,10 @@ fn run_threads(spec: &Spec) -> String {
         parts.push(format!("{}:{}:{}:{}", cs.thread_id, info, frames.join(","), offs.join(",")));
     }
     format!(
-        "T req={} {}",
+        "T req={} {} | {}",
         state.requesting_thread.map(|i| i.to_string()).unwrap_or_else(|| "-".into()),
-        parts.join(";")
+        parts.join(";"),
+        rendered
     )
 }
 
